@@ -38,7 +38,11 @@ func vC15Line(d string) *Line {
 	}
 	line := &Line{Cmd: "EV", Nick: vStr("nick"+d, 1), Raw: vStr("raw"+d, 2)}
 	for i := 0; i < nargs; i++ {
-		line.Args = append(line.Args, vStr("arg"+d+string([]byte{byte('a' + i)}), vLen("arglen"+d+string([]byte{byte('a' + i)}), 0, 2)))
+		n := 1 // (15 arguments: one symbolic byte each)
+		if nargs <= 3 {
+			n = vLen("arglen"+d+string([]byte{byte('a' + i)}), 0, 2)
+		}
+		line.Args = append(line.Args, vStr("arg"+d+string([]byte{byte('a' + i)}), n))
 	}
 	switch vLen("tags"+d, 0, 3) {
 	case 1:
